@@ -24,10 +24,10 @@ var mutants = []Mutant{
 	// ---- C01
 	{"C01", "stale-cmp-strict", "internal/freshness.go", [][2]string{{"isStale := currentAge.Value >= usefulLife", "isStale := currentAge.Value > usefulLife"}}, "C01.3", "served when age == lifetime"},
 	{"C01", "drop-resident-time", "internal/freshness.go", [][2]string{{"residentTime := max(clock.Since(responseTime), 0)", "residentTime := time.Duration(0)"}}, "C01.4", "entries never age"},
-	{"C01", "heuristic-20-percent", "internal/freshness.go", [][2]string{{"float64(delta) * 0.1", "float64(delta) * 0.2"}}, "C01.5", "heuristic lifetime doubled"},
+	{"C01", "heuristic-20-percent", "internal/freshness.go", [][2]string{{"return (delta / 10).Truncate(time.Second)", "return (delta / 5).Truncate(time.Second)"}}, "C01.5", "heuristic lifetime doubled"},
 	{"C01", "serve-without-freshness-test", "roundtripper.go", [][2]string{{"if !freshness.IsStale && !ccReq.NoCache() {", "if !ccReq.NoCache() {"}}, "C01.2", "stale response served as a hit"},
 	{"C01", "swr-window-inclusive", "roundtripper.go", [][2]string{{"staleFor >= 0 && staleFor < swr", "staleFor >= 0 && staleFor <= swr"}}, "C01.2", "served at staleness == window"},
-	{"C01", "fallback-on-zero-lifetime", "internal/freshness.go", [][2]string{{"if !hasMaxAge {", "if usefulLife == 0 {"}}, "C01.1", "max-age=0 gets a heuristic lifetime (D01)"},
+	{"C01", "fallback-on-zero-lifetime", "internal/freshness.go", [][2]string{{"if !resCC.MaxAgePresent() {", "if usefulLife == 0 {"}}, "C01.1", "max-age=0 gets a heuristic lifetime (D01)"},
 	{"C01", "no-clamp-delta", "internal/ccdirectives.go", [][2]string{{"seconds = min(seconds, maxDeltaSeconds)\n", ""}}, "C01.6", "max-age wraps negative"},
 	{"C01", "apparent-age-unclamped", "internal/freshness.go", [][2]string{{"apparentAge := max(responseTime.Sub(date), 0)", "apparentAge := responseTime.Sub(date)"}}, "C01.4", "skewed Date gives negative age"},
 	// ---- C02
@@ -56,7 +56,7 @@ var mutants = []Mutant{
 	{"C05", "table-lacks-transfer-encoding", "internal/helpers.go", [][2]string{{"\t\t\"Transfer-Encoding\": {},\n", ""}}, "C05", "TE stored (anchor lost or table incomplete)"},
 	{"C05", "table-lacks-keep-alive", "internal/helpers.go", [][2]string{{"\t\t\"Keep-Alive\":        {},\n", ""}}, "C05.1", "Keep-Alive stored"},
 	{"C05", "no-strip-before-store", "internal/responsestorerer.go", [][2]string{{"\tremoveHopByHopHeaders(resp)\n", ""}}, "C05.2", "hop-by-hop fields stored"},
-	{"C05", "dump-without-body", "internal/entry.go", [][2]string{{"httputil.DumpResponse(&head, true)", "httputil.DumpResponse(&head, false)"}}, "C05.4", "bodies not stored"},
+	{"C05", "dump-without-body", "internal/entry.go", [][2]string{{"respBytes, err := httputil.DumpResponse(&head, true)", "respBytes, err := httputil.DumpResponse(&head, false)"}}, "C05.4", "bodies not stored"},
 	{"C05", "merge-copies-content-length", "internal/helpers.go", [][2]string{{"\tomitted[\"Content-Length\"] = struct{}{}\n", ""}}, "C05.3", "304 Content-Length truncates the body"},
 	{"C05", "debug-header-leak", "roundtripper.go", [][2]string{{"\tinternal.CacheStatusMiss.ApplyTo(resp.Header)\n", "\tinternal.CacheStatusMiss.ApplyTo(resp.Header)\n\tresp.Header.Set(\"X-Debug-Key\", urlKey)\n"}}, "C05.5", "extra header on served responses"},
 	{"C05", "status-before-store", "roundtripper.go", [][2]string{{"\tccResp := internal.ParseCCResponseDirectives(resp.Header)\n\t// A 304 on this path", "\tccResp := internal.ParseCCResponseDirectives(resp.Header)\n\tinternal.CacheStatusMiss.ApplyTo(resp.Header)\n\t// A 304 on this path"}}, "C05.6", "stored copies carry the cache status"},
@@ -128,9 +128,9 @@ var mutants = []Mutant{
 	{"C14", "decoder-std-alphabet", "store/fscache/filenamer.go", [][2]string{{"decoded, err := base64.RawURLEncoding.DecodeString(encoded.String())", "decoded, err := base64.RawStdEncoding.DecodeString(encoded.String())"}}, "C14.5", "Keys() garbage"},
 	{"C14", "api-lowercases-key", "store/expapi/expapi.go", [][2]string{{"func keyFromRequest(r *http.Request) string { return r.PathValue(\"key\") }", "func keyFromRequest(r *http.Request) string { return strings.ToLower(r.PathValue(\"key\")) }"}, {"import (\n\t\"encoding/json\"", "import (\n\t\"strings\"\n\t\"encoding/json\""}}, "C14.4", "API addresses another key"},
 	// ---- C15
-	{"C15", "write-in-place", "store/fscache/fscache.go", [][2]string{{"\tf, err := c.root.Create(tmp)\n", "\tf, err := c.root.Create(name)\n"}, {"\tif err := c.root.Rename(tmp, name); err != nil {\n\t\treturn fail(err)\n\t}\n", "\t_ = tmp\n"}}, "C15.1", "D33"},
+	{"C15", "write-in-place", "store/fscache/fscache.go", [][2]string{{"\tf, err := c.root.Create(tmp)\n", "\tf, err := c.root.Create(name)\n"}, {"\tif err := publish(func() error { return c.root.Rename(tmp, name) }); err != nil {\n\t\treturn fail(err)\n\t}\n", "\t_ = tmp\n"}}, "C15.1", "D33"},
 	{"C15", "no-sync", "store/fscache/fscache.go", [][2]string{{"\tif err := f.Sync(); err != nil {\n\t\treturn fail(err)\n\t}\n", ""}}, "C15.1", "rename before data is durable"},
-	{"C15", "no-rename", "store/fscache/fscache.go", [][2]string{{"\tif err := c.root.Rename(tmp, name); err != nil {\n\t\treturn fail(err)\n\t}\n", ""}}, "C15.1", "value never becomes visible"},
+	{"C15", "no-rename", "store/fscache/fscache.go", [][2]string{{"\tif err := publish(func() error { return c.root.Rename(tmp, name) }); err != nil {\n\t\treturn fail(err)\n\t}\n", ""}}, "C15.1", "value never becomes visible"},
 	// ---- C16
 	{"C20", "swr-uses-caller-request", "roundtripper.go", [][2]string{{"req2 := req.Clone(req.Context())", "req2 := req"}}, "C20.6", "the goroutine works on the caller's request object"},
 	{"C16", "transport-per-request-state", "roundtripper.go", [][2]string{{"\turlKey := r.uk.URLKey(req.URL)\n", "\turlKey := r.uk.URLKey(req.URL)\n\tr.swrTimeout += 0\n"}}, "C16.3", "transport field written per request"},
@@ -187,6 +187,25 @@ var mutants = []Mutant{
 	{"C11", "max-age-zero-reaches-calculator", "roundtripper.go", [][2]string{{"\t\tdelete(freshnessReq, \"max-age\")\n", ""}}, "C11.2", "D60"},
 	{"C02", "max-age-zero-not-validated", "roundtripper.go", [][2]string{{"needsValidation = ccReq.NoCache() || validateNow ||", "needsValidation = ccReq.NoCache() ||"}}, "C02.1", "D60"},
 	{"C02", "immutable-overrides-max-age-zero", "roundtripper.go", [][2]string{{"ccResp.Immutable() && !ccReq.NoCache() && !validateNow &&", "ccResp.Immutable() && !ccReq.NoCache() &&"}}, "C02.1", "D60"},
+	// ---- reverts of the repairs D61-D73
+	{"C07", "dots-removed-before-decoding", "internal/urlkeyer.go", [][2]string{{"normalized = base.ResolveReference(&ref)", "normalized = base.ResolveReference(u)"}}, "C07.9", "D61"},
+	{"C09", "te-table-key-not-canonical", "internal/normalization.go", [][2]string{{"\t\t\t\"Te\", // canonical form", "\t\t\t\"TE\", // canonical form"}}, "C09.11", "D62"},
+	{"C17", "entry-id-not-compared", "internal/responsecache.go", [][2]string{{"\tif entry.ID != responseKey {", "\tif false && entry.ID != responseKey {"}}, "C17.6", "D63"},
+	{"C10", "stored-body-not-read", "internal/entry.go", [][2]string{{"\tbody, err := io.ReadAll(r.Body)\n\t_ = r.Body.Close()\n\tif err != nil {\n\t\treturn nil, errors.Join(errInvalidResponse, fmt.Errorf(\"incomplete body: %w\", err))\n\t}\n\tr.Body = io.NopCloser(bytes.NewReader(body))\n", ""}}, "C10.15", "D64"},
+	{"C10", "stored-body-read-error-ignored", "internal/entry.go", [][2]string{{"\tif err != nil {\n\t\treturn nil, errors.Join(errInvalidResponse, fmt.Errorf(\"incomplete body: %w\", err))\n\t}\n\tr.Body = io.NopCloser", "\t_ = err\n\tr.Body = io.NopCloser"}}, "C10.15", "D64 (error dropped)"},
+	{"C10", "nil-header-not-repaired", "roundtripper.go", [][2]string{{"\t\tensureHeader(resp)\n\t\t_ = internal.FixDateHeader(resp.Header, end)", "\t\t_ = internal.FixDateHeader(resp.Header, end)"}}, "C10.16", "D65"},
+	{"C10", "nil-header-not-repaired-on-bypass", "roundtripper.go", [][2]string{{"\tensureHeader(resp)\n\tinternal.CacheStatusBypass.ApplyTo(resp.Header)", "\tinternal.CacheStatusBypass.ApplyTo(resp.Header)"}}, "C10.16", "D65 (unsafe path)"},
+	{"C02", "client-validator-forwarded", "helpers.go", [][2]string{{"\treq2.Header.Del(\"If-None-Match\")\n\treq2.Header.Del(\"If-Modified-Since\")\n", ""}}, "C02.3", "D66"},
+	{"C08", "client-etag-forwarded", "helpers.go", [][2]string{{"\treq2.Header.Del(\"If-None-Match\")\n", ""}}, "C08.10", "D66 (one field)"},
+	{"C17", "repeated-encrypt-first-wins", "store/fscache/fscache.go", [][2]string{{"\tif len(query[\"encrypt\"]) > 1 {\n\t\treturn nil, fmt.Errorf(\"fscache: the encrypt parameter is given %d times\", len(query[\"encrypt\"]))\n\t}\n", ""}}, "C17.7", "D67"},
+	{"C11", "age-field-whole", "internal/freshness.go", [][2]string{{"\tageField, _, _ := strings.Cut(h.Get(\"Age\"), \",\")\n\tif v, valid := RawDeltaSeconds(textproto.TrimString(ageField)).Value(); valid {", "\tif v, valid := RawDeltaSeconds(h.Get(\"Age\")).Value(); valid {"}, {"\t\"net/textproto\"\n", ""}, {"\t\"strings\"\n", ""}}, "C11.10", "D68"},
+	{"C01", "invalid-max-age-means-none", "internal/freshness.go", [][2]string{{"\tif !resCC.MaxAgePresent() {", "\tif !hasMaxAge {"}}, "C01.17", "D69"},
+	{"C01", "heuristic-rounded-to-nearest", "internal/freshness.go", [][2]string{{"return (delta / 10).Truncate(time.Second)", "return (delta / 10).Round(time.Second)"}}, "C01.18", "D70"},
+	{"C12", "escape-anywhere", "internal/helpers.go", [][2]string{{"case c == '\\\\' && inQuotes:", "case c == '\\\\':"}}, "C12.13", "D71"},
+	{"C20", "cancel-channel-kept", "roundtripper.go", [][2]string{{"\treq2.Cancel = nil //nolint:staticcheck // deprecated, but honoured by net/http transports\n", ""}}, "C20.3", "D72"},
+	{"C05", "trailers-only-from-head-copy", "internal/entry.go", [][2]string{{"\tif err == nil && len(r.Data.Trailer) != len(head.Trailer) {\n\t\t// Trailer fields that were not announced appear on the response only while its body is\n\t\t// read, i.e. after the head was copied: write the message again with them.\n\t\thead.Trailer = r.Data.Trailer\n\t\tif len(head.TransferEncoding) == 0 {\n\t\t\thead.TransferEncoding = []string{\"chunked\"}\n\t\t}\n\t\trespBytes, err = httputil.DumpResponse(&head, true)\n\t}\n", ""}}, "C05.11", "D73"},
+	{"C15", "timed-out-set-still-publishes", "store/fscache/fscache.go", [][2]string{{"\tif err := publish(func() error { return c.root.Rename(tmp, name) }); err != nil {", "\t_ = publish\n\tif err := c.root.Rename(tmp, name); err != nil {"}}, "C15.4", "D74"},
+	{"C14", "timeout-does-not-abandon", "store/fscache/fscache.go", [][2]string{{"\tcase <-ctx.Done():\n\t\tgate.abandon()\n\t\treturn ctx.Err()\n\tcase err := <-errc:\n\t\treturn err\n\t}\n}\n\n// abandonGate", "\tcase <-ctx.Done():\n\t\treturn ctx.Err()\n\tcase err := <-errc:\n\t\treturn err\n\t}\n}\n\n// abandonGate"}}, "C14.11", "D74 (timeout branch)"},
 }
 
 // MutantResult is one row of the kill matrix.
